@@ -2,15 +2,17 @@
 // property: C06
 // harness-file: frame.rs
 // harness: c06_frame_parse_vs_reference_20
-// failed-check: the decoder waits for more bytes only when a valid frame can still complete (no stall on malformed length) @ ../vh/frame.rs:102:13 in function frame::verif_kani::parse_vs_reference::<20>
-// native-result: /var/tmp/rdest-verif.C06.14799/vh/frame.rs:102:13: the decoder waits for more bytes only when a valid frame can still complete (no stall on malformed length)
+// failed-check: This is a placeholder message; Kani doesn't support message formatted at runtime @ ../../../../home/runner/.rustup/toolchains/nightly-2026-08-21-x86_64-unknown-linux-gnu/lib/rustlib/src/rust/library/core/src/slice/index.rs:59:9 in function core::slice::index::slice_index_fail::do_panic::runtime
+// failed-check: the decoder waits for more bytes only when a valid frame can still complete (no stall on malformed length) @ ../vh/frame.rs:100:13 in function frame::verif_kani::parse_vs_reference::<20>
+// failed-check: This is a placeholder message; Kani doesn't support message formatted at runtime @ ../../../../home/runner/.rustup/toolchains/nightly-2026-08-21-x86_64-unknown-linux-gnu/lib/rustlib/src/rust/library/core/src/slice/index.rs:50:9 in function core::slice::index::slice_index_fail::do_panic::runtime
+// native-result: src/messages/piece.rs:44:51: range end index 13 out of range for slice of length 12
 // rerun: cd /verif && ./check C06 --replay /verif/evidence/replay/C06-c06_frame_parse_vs_reference_20.rs
 /// Test generated for harness `frame::verif_kani::c06_frame_parse_vs_reference_20` 
 ///
-/// Check for `assertion`: ""the decoder waits for more bytes only when a valid frame can still complete (no stall on malformed length)""
+/// Check for `assertion`: "This is a placeholder message; Kani doesn't support message formatted at runtime"
 
 #[test]
-fn kani_concrete_playback_c06_frame_parse_vs_reference_20_12585459151793073219() {
+fn kani_concrete_playback_c06_frame_parse_vs_reference_20_4685201583066398064() {
     let concrete_vals: Vec<Vec<u8>> = vec![
         // 0
         vec![0],
@@ -18,42 +20,42 @@ fn kani_concrete_playback_c06_frame_parse_vs_reference_20_12585459151793073219()
         vec![0],
         // 0
         vec![0],
-        // 13
-        vec![13],
-        // 4
-        vec![4],
-        // 255
-        vec![255],
-        // 255
-        vec![255],
-        // 255
-        vec![255],
-        // 255
-        vec![255],
-        // 0
-        vec![0],
-        // 0
-        vec![0],
-        // 0
-        vec![0],
-        // 2
-        vec![2],
-        // 0
-        vec![0],
-        // 0
-        vec![0],
-        // 0
-        vec![0],
-        // 0
-        vec![0],
-        // 1
-        vec![1],
-        // 1
-        vec![1],
+        // 8
+        vec![8],
+        // 7
+        vec![7],
+        // 111
+        vec![111],
+        // 114
+        vec![114],
+        // 114
+        vec![114],
+        // 101
+        vec![101],
+        // 110
+        vec![110],
+        // 116
+        vec![116],
+        // 32
+        vec![32],
+        // 112
+        vec![112],
+        // 114
+        vec![114],
+        // 110
+        vec![110],
+        // 116
+        vec![116],
+        // 111
+        vec![111],
+        // 99
+        vec![99],
+        // 111
+        vec![111],
         // 108
         vec![108],
-        // 17ul
-        vec![17, 0, 0, 0, 0, 0, 0, 0],
+        // 12ul
+        vec![12, 0, 0, 0, 0, 0, 0, 0],
     ];
     kani::concrete_playback_run(concrete_vals, c06_frame_parse_vs_reference_20);
 }
